@@ -40,7 +40,7 @@ class Spec:
             t.update(max_ops=30)
         from hypothesis import strategies as st
         # third family: chains with two or more checksummed levels (nested out-of-band settles)
-        return st.one_of(gen.histories(o), gen.histories(t), gen.histories(o), gen.histories(t), gen.nested_chains())
+        return st.one_of(gen.histories(o), gen.histories(t), gen.histories(t), gen.histories(t), gen.nested_chains())
 
     def run_case(self, case, tier):
         return hist.HistoryRunner(case, self.checks, tag="c03").run()
